@@ -21,9 +21,11 @@
   C09.time, not theorems.
 -/
 import LccModel.Lemmas.Serial
+import LccModel.Lemmas.JsonFile
+import LccModel.Lemmas.Store
 
 namespace LccModel.C09
-open LccModel.Report LccModel.Writer LccModel.Serial
+open LccModel.Report LccModel.Writer LccModel.Serial LccModel.JsonFile LccModel.Store
 
 /-! ## JSON: every report, every string, every optional field -/
 
@@ -219,5 +221,118 @@ theorem xml_missing_start_time_save_fails :
      | .saveError (.noneTime _) => true
      | _ => false) = true ∧
     (fromJson (toJson 9 { Report.empty with title := "t" })).toOption.isSome = true := by decide
+
+/-! ## The JSON *file*: backend options, JavaScript prefix
+
+  `JsonBackend(javascript_compatibility, pretty_formatting)` — four option combinations; the loader does not know which
+  one wrote the file.  `render pretty` / `parse` are the text layer (`json.dumps(…[, indent=4])` / `json.loads`), a
+  parameter with the two facts the stream `C09.json` validates on every real file: it is the identity on values and
+  an object is rendered starting with `{`. -/
+
+/-- Sentence 1, on the file as it is written and read: for EVERY option combination, every representable report and
+    every text (the report may quote the prefix itself, or any other piece of the file format, anywhere), stripping the
+    JavaScript prefix the way the loader does (anchored at offset 0), parsing and unserialising gives the report back. -/
+theorem json_file_roundtrip (render : Bool → JVal → List Char) (parse : List Char → Option JVal)
+    (hid : ∀ p v, parse (render p v) = some v)
+    (hobj : ∀ p kvs, ∃ rest, render p (.obj kvs) = '{' :: rest)
+    (o : Opts) (g : Time) (r : Report) (h : representable r = true) :
+    (parse (unframe (frame o (render o.pretty (toJson g r))))).map fromJson = some (.ok (loaded g r)) := by
+  have hun : unframe (frame o (render o.pretty (toJson g r))) = render o.pretty (toJson g r) := by
+    unfold frame
+    cases o.jsCompat with
+    | true => simp only [if_true]; exact unframe_prefixed _
+    | false =>
+      simp only [Bool.false_eq_true, if_false]
+      obtain ⟨rest, hr⟩ := hobj o.pretty _
+      rw [toJson, hr]
+      exact unframe_of_head_ne (by decide)
+  rw [hun, hid, Option.map_some, json_roundtrip g r h]
+
+/-- The anchoring is necessary: removing the FIRST OCCURRENCE of the prefix instead (a loader written with
+    `text.replace(JS_PREFIX, "", 1)`) damages a file saved without the prefix whose content quotes it. -/
+theorem unanchored_strip_refuted :
+    ∃ body : List Char, body.head? = some '{' ∧ unframe (frame { jsCompat := false, pretty := false } body) = body
+      ∧ removeFirst jsPrefix body ≠ body :=
+  ⟨"{\"title\": \"var reporting_data = x\"}".toList, by decide, by decide, by decide⟩
+
+/-- `C09/json/split-surrogate-pair-merged` (open finding): the `ensure_ascii` escaping of the JSON text layer is NOT
+    injective — the two code points U+D83D U+DE00 (a high surrogate followed by a low one, as a Python `str` can hold
+    them) and the single character U+1F600 are written as the same text, so no loader can give both back; `json.loads`
+    returns the astral character.  (The theorems above are on JSON *values*: the text layer is their parameter, and it is
+    the identity on every string without such a split pair — validated by stream `C09.jsontext`.) -/
+theorem json_escape_not_injective :
+    jsonEscape [0xD83D, 0xDE00] = jsonEscape [0x1F600] ∧ ([0xD83D, 0xDE00] : List Nat) ≠ [0x1F600] := by decide
+
+/-- … whereas every *lone* surrogate has its own spelling (`\udXXX`), different from that of every other single code point
+    of the BMP. -/
+theorem json_escape_lone_surrogate : jsonEscape [0xD800] = [92, 117, 100, 56, 48, 48] ∧ jsonEscape [0xDFFF] = [92, 117, 100, 102, 102, 102] := by
+  decide
+
+/-- The JSON text is pure printable ASCII whatever the strings of the report hold (lone surrogates, controls, astral
+    characters): it can be written to the report file under every ASCII-compatible locale encoding, and contains no line
+    break and no character the prefix-stripping could be confused by other than those of the text itself. -/
+theorem json_text_is_printable_ascii (s : List Nat) : ∀ x ∈ jsonEscape s, 32 ≤ x ∧ x ≤ 126 := jsonEscape_range s
+
+/-! ## Sequences: the same live report saved, modified, saved again
+
+  `Store.run` is the pipeline on an arbitrary sequence of modifications (`mutate f`, ANY function on the report value:
+  tags, links, status, steps, logs of tests that were already finished and already saved), saves (either backend, any
+  options, any path, any generation time) and loads; `Store.specRun` is the same sequence where a file simply stands
+  for the report value that was current at the save. -/
+
+/-- **No history in a file**: on every operation sequence the real pipeline answers every save and every load exactly
+    like the specification — a saved file depends on the report as it is at the moment of the save and on nothing else
+    (not on earlier saves of the same objects, not on what a test looked like when it was first serialised). -/
+theorem seq_run_is_spec (r0 : Report) (ops : List Op) :
+    Store.run (St.init r0) ops = Store.specRun { report := r0, files := [] } ops :=
+  run_eq_specRun ops (St.init r0) { report := r0, files := [] } rfl trivial
+
+/-- one-shot JSON round trip, any options -/
+theorem oneShot_json (o : Opts) (g : Time) (r : Report) (h : representable r = true) :
+    oneShot (.json o) g r = .loaded (loaded g r) := by
+  simp [oneShot, loadContent, json_roundtrip g r h]
+
+/-- one-shot XML round trip under the guard of `xml_roundtrip_partial` -/
+theorem oneShot_xml_partial (g : Time) (r : Report) (hs : xmlSafe r = true) (hr : representable r = true) :
+    oneShot .xml g r = .loaded (loaded g r) := by
+  obtain ⟨r', h1, h2⟩ := xml_roundtrip_pipeline_partial g r hs hr
+  rw [oneShot_xml, h1, h2]
+  rfl
+
+/-- Sentence 1 for a report that is saved again after having been modified (JSON, any options): after ANY history
+    `pre` (earlier saves to this or other paths, loads, modifications), a save to `p`, then anything that does not save
+    to `p` again (further modifications included), a load of `p` yields the report exactly as it was at that save. -/
+theorem seq_json_load_is_report_at_save (r0 : Report) (pre post : List Op) (p : Nat) (o : Opts) (g : Time)
+    (hrep : representable (reportAfter r0 pre) = true) (hpost : ∀ op ∈ post, op.savesTo p = false) :
+    (Store.run (St.init r0) (pre ++ [.save p (.json o) g] ++ post ++ [.load p])).getLast? =
+      some (.loaded (loaded g (reportAfter r0 pre))) := by
+  rw [seq_run_is_spec, specRun_last_load pre post p (.json o) g _ rfl hpost, oneShot_json o g _ hrep]
+
+/-- The same for the XML backend, under `xmlSafe` of the report at the save. -/
+theorem seq_xml_load_is_report_at_save_partial (r0 : Report) (pre post : List Op) (p : Nat) (g : Time)
+    (hs : xmlSafe (reportAfter r0 pre) = true) (hrep : representable (reportAfter r0 pre) = true)
+    (hpost : ∀ op ∈ post, op.savesTo p = false) :
+    (Store.run (St.init r0) (pre ++ [.save p .xml g] ++ post ++ [.load p])).getLast? =
+      some (.loaded (loaded g (reportAfter r0 pre))) := by
+  have hone := oneShot_xml_partial g _ hs hrep
+  have hsave : saveOutcome .xml g (reportAfter r0 pre) = .saved := by
+    simp only [oneShot] at hone
+    simp only [saveOutcome]
+    cases hx : xmlFile g (reportAfter r0 pre) with
+    | error e => rw [hx] at hone; cases hone
+    | ok c => rfl
+  rw [seq_run_is_spec, specRun_last_load pre post p .xml g _ hsave hpost, hone]
+
+/-- non-vacuity: the test `a` of `sampleReport`… finished, saved, then annotated (status details, a tag), saved again
+    with other options to the same path: the load shows the annotated test -/
+example :
+    (match (Store.run (St.init (w (wTest "m" none [] "s" none)))
+        [.save 0 (.json { jsCompat := true, pretty := false }) 9,
+         .mutate (fun _ => w (wTest "m" (some "known issue") [("http://bug/1", some "#1")] "s" none)),
+         .save 0 (.json { jsCompat := false, pretty := true }) 10, .load 0]).getLast? with
+     | some (.loaded r) => (match r.suites with
+        | (.mk _ _ _ _ _ (t :: _) _) :: _ => t.result.statusDetails == some "known issue" && t.md.links.length == 1
+        | _ => false)
+     | _ => false) = true := by decide
 
 end LccModel.C09
